@@ -234,12 +234,19 @@ func diff(ref, got node, where string) (string, string) {
 		}
 		return "", ""
 	}
-	if ref.K == "opaque" || got.K == "opaque" && ref.K != "nil" && got.ObjTyp == "" {
+	if ref.K == "opaque" {
+		return "", ""
+	}
+	if got.K == "opaque" {
+		if got.ObjTyp != "" {
+			return "wrong-type", fmt.Sprintf("%s: expected %s %s, the script holds a %s", where, ref.K, short(ref), got.S)
+		}
 		return "", ""
 	}
 	if ref.K != got.K {
-		// an error value whose dynamic type is a struct pointer may be shown as a proxy
-		if ref.K == "err" && got.K == "struct" {
+		// an error value is its message; its dynamic Go value may show as a proxy (pointer to a
+		// struct) or as a string with the same text (named string type)
+		if ref.K == "err" && (got.K == "struct" || (got.K == "str" && got.S == ref.S)) {
 			return "", ""
 		}
 		if got.K == "nil" {
@@ -325,7 +332,13 @@ func nat(v reflect.Value, oor string, hasOOR *bool, guard int) (object.Object, b
 		return object.NewTime(v.Interface().(time.Time)), true
 	}
 	switch v.Kind() {
-	case reflect.Interface, reflect.Ptr:
+	case reflect.Interface:
+		if v.IsNil() {
+			return object.Nil, true
+		}
+		// nothing is narrow inside an interface position
+		return nat(v.Elem(), "", hasOOR, guard+1)
+	case reflect.Ptr:
 		if v.IsNil() {
 			return object.Nil, true
 		}
